@@ -179,7 +179,8 @@ func VH_C01_CodePagesVerify()             { VH_C02_CodePagesSignedAndVerified() 
 
 // H11.csblob-r: one requirement expression (version word + opcode stream) as
 // `relic verify` prints it for an untrusted Mach-O: Format() on a version-1
-// requirement followed by 0..8 arbitrary bytes returns text or an error -
+// requirement followed by 0..11 arbitrary bytes (an operand cut inside its
+// data or inside its padding) returns text or an error -
 // no panic for any opcode, operand length word (incl. lengths whose 4-byte
 // alignment wraps 32 bits) or truncation point. Date matches (five match
 // codes that format a calendar date) are assumed away: calendar arithmetic
@@ -187,9 +188,9 @@ func VH_C01_CodePagesVerify()             { VH_C02_CodePagesSignedAndVerified() 
 func VH_C11_CSRequirementFormat() {
 	var n int
 	if vhTier() > 0 {
-		n = vhConcretize(vhInt("len", 0, 8), 9)
+		n = vhConcretize(vhInt("len", 0, 11), 12)
 	} else {
-		n = []int{0, 3, 4, 7, 8}[vhConcretize(vhInt("lenidx", 0, 4), 5)]
+		n = []int{0, 3, 4, 7, 8, 9, 10, 11}[vhConcretize(vhInt("lenidx", 0, 7), 8)]
 	}
 	vhRequirementFormat(vhBytes("expr", n))
 }
